@@ -624,6 +624,17 @@ func c16Run(ctx *core.Ctx, tree int, dotu bool) core.Result {
 		if _, err := c.FStat(nd.rel + "/no-such-child/deeper"); err == nil {
 			fail("client-fstat-missing-succeeds", "FStat of a path that does not exist succeeded")
 		}
+		// … also when the missing element is followed by dot-dot: the local path does not resolve (the kernel looks
+		// every element up), so the client path must not either
+		for _, sfx := range []string{"/no-such-child/..", "/no-such-child/../.", "/no-such-child/../no-such-child/.."} {
+			if _, lerr := os.Lstat(e.root + "/" + nd.rel + sfx); lerr == nil {
+				continue
+			}
+			res.Evals++
+			if _, err := c.FStat(nd.rel + sfx); err == nil {
+				fail("client-fstat-missing-dotdot-succeeds", fmt.Sprintf("FStat(%q): the path has an element that does not exist, Lstat fails, the client resolved it", short(nd.rel)+sfx))
+			}
+		}
 	}
 	// the same through several goroutines that share the client (after the deep paths above have been resolved
 	// through it): every name still resolves to its own object
